@@ -64,8 +64,8 @@ def in_scope(prop, b):
     if prop == "C16":
         if ev == "Apply":
             return bool(d & {"hm", "fm"}) or overflow
-        if ev == "Undo":
-            return overflow
+        if overflow:
+            return True
         return why in ("draw by move count not reported",) or (why == "draw reported too early" and b.get("x", {}).get("seen", 0) < 3)
     if prop == "C17":
         if ev in ("Count", "Uncount"):
